@@ -153,10 +153,18 @@ def dump_quantity(quantity, version=LATEST_VER):
     if (quantity.unit is None) or (quantity.unit == ''):
         return dump_decimal(quantity.value, version=version)
     else:
-        return 'n:%f %s' % (quantity.value, quantity.unit)
+        return '%s %s' % (dump_decimal(quantity.value, version=version),
+                          quantity.unit)
 
 
 def dump_decimal(decimal, version=LATEST_VER):
+    # Project Haystack spells the non-finite numbers INF, -INF and NaN
+    if decimal != decimal:
+        return 'n:NaN'
+    elif decimal == float('inf'):
+        return 'n:INF'
+    elif decimal == float('-inf'):
+        return 'n:-INF'
     return 'n:%f' % decimal
 
 
